@@ -64,3 +64,37 @@ Ltac list_eq :=
   | |- (_ :: _) = (_ :: _) => apply (f_equal2 (@cons _))
   | |- [] = [] => reflexivity
   end.
+
+(* ---- direct-product arrangements (C06) *)
+Fixpoint psum (l : list nat) : list nat :=
+  match l with [] => [O] | x :: r => O :: map (Nat.add x) (psum r) end.
+Definition sumn (l : list nat) : nat := fold_right Nat.add O l.
+
+Definition pad_row (before : nat) (row : list R) (total : nat) : list R :=
+  repeat 0 before ++ row ++ repeat 0 (total - before - length row).
+Fixpoint blockdiag_aux (off total : nat) (Ms : list mat) : mat :=
+  match Ms with
+  | [] => []
+  | M :: r => map (fun row => pad_row off row total) M ++ blockdiag_aux (off + length M) total r
+  end.
+(* block-diagonal arrangement of square blocks *)
+Definition blockdiag (Ms : list mat) : mat := blockdiag_aux 0 (sumn (map (@length (list R)) Ms)) Ms.
+
+(* stacked-Hessian arrangement of the parts' Hessians: part with offset B and size D contributes, for j, c < D,
+   H[B + r][Dof * (B + j) + B + c] = Hp[r][D * j + c] *)
+Definition hess_row (B D Dof : nat) (hr : list R) : list R :=
+  concat (map (fun k => if andb (Nat.leb B k) (Nat.ltb k (B + D))
+                        then pad_row B (firstn D (skipn (D * (k - B)) hr)) Dof
+                        else repeat 0 Dof) (seq 0 Dof)).
+Fixpoint bundle_hess_aux (off Dof : nat) (Hs : list mat) : mat :=
+  match Hs with
+  | [] => []
+  | H :: r => map (hess_row off (length H) Dof) H ++ bundle_hess_aux (off + length H) Dof r
+  end.
+Definition bundle_hess (Hs : list mat) : mat := bundle_hess_aux 0 (sumn (map (@length (list R)) Hs)) Hs.
+
+Ltac mat_unfold2 :=
+  cbv [psum sumn pad_row blockdiag_aux blockdiag hess_row bundle_hess_aux bundle_hess
+       mmul mtrans mcol ncols mvec dot vadd vsub vscale vneg madd msub mscale mneg unitv mI mzero vzero comm
+       mget vget vslice mblock vslice_rows mflat concat app fold_right
+       map seq nth length repeat firstn skipn Nat.eqb Nat.leb Nat.ltb Nat.add Nat.sub Nat.mul andb hd tl fst snd].
